@@ -185,7 +185,8 @@ class Fragment(AbstractApplication):
             # Synthesize original bundle
             rctr = BundleContainer()
             rctr.bundle.primary = reassm.first_frag.primary.copy()
-            rctr.bundle.primary.bundle_flags &= ~PrimaryBlock.Flag.IS_FRAGMENT
+            # integer arithmetic: the complement of an enumerated flag drops every unassigned bit too
+            rctr.bundle.primary.bundle_flags = int(rctr.bundle.primary.getfieldval('bundle_flags')) & ~int(PrimaryBlock.Flag.IS_FRAGMENT)
             # the CRC types stay as they were in the original bundle
             # (the primary block is bound into security operations)
 
